@@ -142,6 +142,41 @@ Section CopyFacts.
   Qed.
 End CopyFacts.
 
+(* ------------------------------------------------------------------ *)
+(* descriptors: a merge needs one reader at a time, whatever the number of
+   stored reports *)
+
+Section FdFacts.
+  Variable R : Type.
+  Variable enc : R -> bytes.
+  Variable dec : bytes -> option R.
+
+  Theorem merge_fd_any_number free objs :
+    (1 <= free)%nat -> merge_fd R enc dec free objs = merge R enc dec objs.
+  Proof.
+    intro Hf. unfold merge_fd, merge.
+    assert (E : merge_lines_fd R enc dec free objs = merge_lines R enc dec objs).
+    { destruct free as [|f]; [lia|]. induction objs as [|o objs IH]; cbn [merge_lines_fd merge_lines]; [reflexivity|].
+      destruct (dec o); [|reflexivity]. rewrite IH. reflexivity. }
+    rewrite E. reflexivity.
+  Qed.
+
+  Lemma open_peak_merge objs : forall peak,
+    open_peak (merge_events R dec objs) 0 peak = (Nat.max peak (if is_nil objs then 0 else 1), 0)%nat.
+  Proof.
+    induction objs as [|o objs IH]; intro peak; cbn [merge_events is_nil].
+    - cbn [open_peak]. rewrite Nat.max_0_r. reflexivity.
+    - destruct (dec o).
+      + cbn [open_peak Nat.pred]. rewrite IH. f_equal. destruct objs; cbn [is_nil]; lia.
+      + cbn [open_peak Nat.pred]. reflexivity.
+  Qed.
+
+  (* at most one upload reader is open at any time and none when the handler returns *)
+  Theorem merge_one_reader_at_a_time objs :
+    open_peak (merge_events R dec objs) 0 0 = ((if is_nil objs then 0 else 1)%nat, 0%nat).
+  Proof. rewrite open_peak_merge. reflexivity. Qed.
+End FdFacts.
+
 Section StoreFacts.
   Variable R : Type.
   Variable enc : R -> bytes.
